@@ -113,6 +113,10 @@ type Options struct {
 	MapOrder      int
 	Verbose       bool
 	StopOnFirst   bool
+	// Classes: if not empty, only assertions whose label starts with one of
+	// these property ids are checked; all others are skipped (neither
+	// checked nor assumed)
+	Classes []string
 	Params        map[string]string
 	Replay        []Input // concrete replay of inputs (no solver)
 	RealRoots     []string
